@@ -160,6 +160,7 @@ type Run struct {
 	Case     string // scenario label of this run (for the journal and samples)
 
 	mu      sync.Mutex
+	cmu     sync.Mutex // guards Probes and Faults
 	tasks   []*Task
 	byGoid  map[int64]*Task
 	cur     *Task
@@ -361,10 +362,13 @@ func (r *Run) Logf(format string, a ...any) {
 	}
 }
 
-func (r *Run) Probe(name string)          { r.Probes[name]++ }
-func (r *Run) ProbeN(name string, n int)  { r.Probes[name] += n }
-func (r *Run) Fault(name string)          { r.Faults[name]++ }
-func (r *Run) NonTrivial()                { r.NonTriv = true }
+// The counters are guarded: in the short windows in which a task woken from a library lock runs beside the stepped one,
+// library callbacks of both may count a probe or a fault at the same moment (two unguarded writes to one Go map abort
+// the process with "concurrent map writes", which then does not reproduce when the run is executed alone).
+func (r *Run) Probe(name string)         { r.cmu.Lock(); r.Probes[name]++; r.cmu.Unlock() }
+func (r *Run) ProbeN(name string, n int) { r.cmu.Lock(); r.Probes[name] += n; r.cmu.Unlock() }
+func (r *Run) Fault(name string)         { r.cmu.Lock(); r.Faults[name]++; r.cmu.Unlock() }
+func (r *Run) NonTrivial()               { r.NonTriv = true }
 func (r *Run) Fingerprint() uint64        { return r.fpHash }
 func (r *Run) MixFingerprint(v uint64)    { r.fpHash = (r.fpHash ^ v) * 1099511628211 }
 func (r *Run) MixFingerprintS(s string) {
